@@ -888,7 +888,7 @@ def _deltas_tol(case):
     """1e-5 for |x| <= 8 (the composite filters are built in float32).  Extreme-magnitude stream: each of the `order` kernel
     applications carries coefficients rounded to float32 (sum |w_k| = 3/(2 width + 1) <= 1) and the module convolves in float32:
     |error| <= 2 (order + 2) u32 max|x|"""
-    if not case.get("offset"):
+    if not (case.get("offset") or case.get("magtol")):     # magtol: size cases (|x| up to ~130, orders up to 128)
         return Fraction(1, 10**5)
     M = max(_case_max_abs([case["x"]], case["scale"]), abs(case["value"]) / case["scale"])
     return Fraction(1, 10**5) + Fraction(2 * (max(case["order"], 0) + 2) * UNIT["f32"] * M * 1.01)
@@ -1854,6 +1854,288 @@ def gen_audit(chk, rng):
     return cases
 
 
+# ---- size thresholds / algorithm regimes ----------------------------------------------------------------------------------
+# Library kernels and tempting rewrites change algorithm with the extent of a tensor / list: sort / small-size paths at 16,
+# blocked and vectorised reductions at 32 / 64 / 128, int8 / uint8 indices and counters at 2^7 / 2^8, BLAS and convolution
+# kernels.  Every extent of every entry point of the property gets a ladder of cases, ONE extent at a time, the others small.
+SIZE_ABOVE = (17, 33, 65, 129, 257)     # one above a power of two: crossed with the options that select a code path
+
+
+def size_ladder(thorough, top=257, extra=()):
+    s = [17, 31, 32, 33, 63, 64, 65, 128, 129, 257] + ([127, 255, 256] if thorough else [])
+    return sorted(set([n for n in s if n <= top] + list(extra)))
+
+
+def size_tensor(rng, shape, axis, amp=8):
+    """payload of a size case: no entry is zero (a dropped or duplicated cell changes the sum AND the sum of squares), the
+    slices along `axis` are pairwise different (the entries of the first line along it are distinct, in random arrangement: a
+    permutation or a swapped pair along the extent is visible, so is the LAST slice taken for its neighbour)"""
+    n = shape[axis]
+    vals = [v for v in range(-(n // 2 + 1), n // 2 + 2) if v != 0][:n]
+    rng.shuffle(vals)
+    t = torch.tensor([rng.choice([-1, 1]) * rng.randint(1, amp) for _ in range(numel(shape))], dtype=torch.long).reshape(shape)
+    if n and numel(shape):
+        t.movedim(axis, 0)[(slice(None),) + (0,) * (len(shape) - 1)] = torch.tensor(vals, dtype=torch.long)
+    return {"shape": list(shape), "data": [int(v) for v in t.flatten().tolist()]}
+
+
+def _tag(c, extent, n, stream="size"):
+    c["size"] = {"extent": extent, "n": n}
+    c["stream"] = stream
+    return c
+
+
+def gen_size_ops(rng, th):
+    """MeanVarianceNormalization: frames of ONE accumulated tensor (along the first, the last and a middle axis: the reduction
+    runs over contiguous / strided memory), coefficients, number of accumulate calls (with peeks in between)"""
+    cases = []
+    st = lambda d=None, b=None: {"op": "store", "delete": rng.random() < 0.5 if d is None else d,  # noqa: E731
+                                 "bessel": rng.random() < 0.5 if b is None else b}
+    k = rng.randrange(4)
+    for n in size_ladder(th):
+        # just above a power of two: two of the four layouts (frames along the first / last / middle axis)
+        for rep in range(2 if n in SIZE_ABOVE else 1):
+            k += 1
+            shape, dim, ax = [([n, 2], -1, 0), ([2, n], 0, 1), ([2, n, 2], -1, 1), ([n, 2, 1], 1, 0)][k % 4]
+            small = list(shape)
+            small[ax] = 1
+            ops = [{"op": "acc", "x": size_tensor(rng, shape, ax)}, {"op": "acc", "x": size_tensor(rng, small, ax)}]
+            if k % 3 == 0:
+                ops.reverse()
+            ops.append(st())
+            cases.append(_tag(dict(kind="ops", dim=dim, scale=rng.choice([1, 4]), dtype=rng.choice(["f64", "f64", "f32"]),
+                                   eps=rng.choice([TINY, 1e-5]), ops=ops, script=k % 5 == 0, forward=n <= 65 and not rep),
+                              "ops.frames", n))
+    for n in size_ladder(th):
+        k += 1
+        shape, dim, ax = [([2, n], -1, 1), ([n, 2], 0, 0), ([1, n, 2], 1, 1), ([n, 3], -2, 0)][k % 4]
+        one = list(shape)
+        one[1 - ax if len(shape) == 2 else 2] = 1
+        ops = [{"op": "acc", "x": size_tensor(rng, shape, ax)}, {"op": "acc", "x": size_tensor(rng, one, ax)}, st()]
+        cases.append(_tag(dict(kind="ops", dim=dim, scale=rng.choice([1, 4]), dtype=rng.choice(["f64", "f64", "f32"]),
+                               eps=rng.choice([TINY, 1e-5]), ops=ops, script=k % 5 == 0, forward=n <= 33),
+                          "ops.coefficients", n))
+    for n in size_ladder(th):
+        k += 1
+        X = rng.choice([1, 2, 3])
+        dim = rng.choice([-1, 0])
+        ops = []
+        peeks = set(rng.sample(range(1, n), 2))
+        for i in range(n):
+            sh = [rng.choice([1, 1, 2]), X] if dim == -1 else [X, rng.choice([1, 1, 2])]
+            ops.append({"op": "acc", "x": size_tensor(rng, sh, 1 if dim == -1 else 0)})
+            if i in peeks:
+                ops.append(st(False))
+        ops.append(st())
+        if k % 2:
+            ops.append(st(False))
+        cases.append(_tag(dict(kind="ops", dim=dim, scale=rng.choice([1, 4]), dtype=rng.choice(["f64", "f64", "f32"]),
+                               eps=1e-5, ops=ops, script=k % 5 == 0, forward=False), "ops.accumulate_calls", n))
+    return cases
+
+
+def gen_size_norm(rng, th):
+    """mean_var_norm / forward: frames and coefficients, own and given statistics"""
+    cases = []
+    k = rng.randrange(4)
+    for extent in ("norm.frames", "norm.coefficients"):
+        for n in size_ladder(th):
+            k += 1
+            m = 2 if n < 200 else 1            # the other extent: minimal for the largest case (cost of the model term)
+            if extent == "norm.frames":
+                shape, dim, ax = [([n, m], -1, 0), ([m, n], 0, 1), ([m, n, 1], 0, 1), ([n, m + 1], 1, 0)][k % 4]
+            else:
+                shape, dim, ax = [([m, n], -1, 1), ([n, m], 0, 0), ([m + 1, n], 1, 1), ([m, n, 1], -2, 1)][k % 4]
+            X = shape[dim]
+            u = rng.random()
+            if extent == "norm.frames":        # the frames only enter through the input's OWN statistics: at least one missing
+                u = 0.0 if u < 0.6 else 0.5 if u < 0.8 else 0.9
+            mean = [rng.randint(-8, 8) for _ in range(X)] if 0.45 <= u < 0.85 else None
+            std = [rng.choice([1, 2, 3, 5, 8, 12]) for _ in range(X)] if u >= 0.7 else None
+            cases.append(_tag(dict(kind="norm", x=size_tensor(rng, shape, ax), scale=4, dim=dim, mean=mean, std=std,
+                                   eps=rng.choice([TINY, 1e-5, 0.5]), via=["function", "module", "script", "kw"][k % 4]),
+                              extent, n))
+    return cases
+
+
+def gen_size_deltas(rng, th):
+    """feat_deltas / FeatureDeltas: time, the lines that become the batch of the convolution (trailing features, leading batch),
+    number of orders (output channels), width (kernel length 2 * width * order + 1)"""
+    cases = []
+    k = rng.randrange(12)
+    vias = ["function", "module", "function", "script", "fn32", "function", "module_kw", "script_fn"]
+
+    def case(x, td, order, width, mode, extent, n):
+        D = len(x["shape"])
+        conc = rng.random() < 0.5
+        DD = D if conc else D + 1
+        return _tag(dict(kind="deltas", x=x, scale=rng.choice([1, 4]), dim=rng.randint(-DD, DD - 1), time_dim=td, concatenate=conc,
+                         order=order, width=width, mode=mode, value=rng.randint(-8, 8) if mode == "constant" else 0,
+                         via=vias[k % len(vias)], magtol=True), extent, n)
+
+    for n in size_ladder(th):
+        k += 1
+        order, width, mode = rng.choice([1, 1, 2] if n < 200 else [1]), rng.choice([1, 2, 3]), MODES[k % 4]
+        m = 2 if n < 200 else 1                # the other extent: minimal for the largest case (cost of the model term)
+        shape, td, ax = [([n, m], -2, 0), ([m, n], -1, 1), ([n, 1, m], 0, 0), ([1, n], 1, 1)][k % 4]
+        cases.append(case(size_tensor(rng, shape, ax), td, order, width, mode, "deltas.time", n))
+        if n in SIZE_ABOVE:                    # just above a power of two: every other pad mode as well, on a single line
+            for other in MODES:
+                if other != mode:
+                    k += 1
+                    shape, td, ax = [([n, 1], -2, 0), ([1, n], -1, 1)][k % 2]
+                    cases.append(case(size_tensor(rng, shape, ax), td, 1, rng.choice([1, 2]), other, "deltas.time", n))
+    for n in size_ladder(th):
+        k += 1
+        order, width, mode = rng.choice([1, 1, 2] if n < 200 else [1]), rng.choice([1, 2]), MODES[k % 4]
+        T = _min_T(mode, order, width) + (rng.choice([1, 2, 3]) if n < 200 else 0)
+        shape, td, ax = [([T, n], 0, 1), ([n, T], -1, 0), ([n, T, 1], 1, 0), ([1, T, n], -2, 2)][k % 4]
+        cases.append(case(size_tensor(rng, shape, ax), td, order, width, mode, "deltas.lines", n))
+    for n in size_ladder(th, top=65):                         # n = order + 1 orders (output channels); 2 (n - 1) + 1 taps
+        k += 1
+        # (the model convolves T + 2 p cells with n filters of 2 p + 1 exact rationals: reflect / circular need T > p, which
+        # costs 3 s of vm_compute at n = 32, 30 - 50 s at n = 64; the short lines of replicate / constant 1 - 2 s)
+        order, width, mode = n - 1, 1, (MODES[k % 4] if n <= (33 if th else 17) else MODES[k % 2])
+        T = _min_T(mode, order, width) + rng.choice([0, 1, 2])
+        shape, td, ax = [([T, 1], 0, 0), ([2, T], 1, 1)][k % 2]
+        cases.append(case(size_tensor(rng, shape, ax, amp=3), td, order, width, mode, "deltas.orders", n))
+    for n in size_ladder(th, top=129 if th else 65, extra=(8, 16)):   # n = width; the kernel has 2 n order + 1 taps: 17, 33, 35,
+        k += 1                                                        # 63 .. 67, 127 .. 131 (3.5 - 4.5 s at width 128: thorough)
+        order, width, mode = (2 if n <= 17 and k % 2 else 1), n, MODES[k % 4]
+        T = _min_T(mode, order, width) + rng.choice([0, 1, 2])
+        shape, td, ax = [([T, 1], 0, 0), ([2, T], 1, 1)][k % 2]
+        cases.append(case(size_tensor(rng, shape, ax, amp=3), td, order, width, mode, "deltas.width", n))
+    return cases
+
+
+def gen_size_return(rng, th):
+    """time_distributed_return: horizon and batch in both layouts.  gamma = 1 / -1: every R_t depends on the LAST reward, sums
+    exact; 1/2, 3/4, 0.9: the discount structure.  The model is cubic in T: horizons above 65 are judged by the exact rational
+    recursion of the property's definition in Python (return_python_spec), as for the long-horizon stream"""
+    cases = []
+    k = rng.randrange(10)
+    gammas = [[1, 1], [1, 2], [-1, 1], 0.9, [1, 1], [3, 4], [1, 2]]
+    vias = ["function", "module", "script", "function", "script_fn", "kw"]
+    by_model = rng.choice([63, 64, 65])        # quick: one horizon of this band by the model (~1.5 s), all three in thorough
+    for n in size_ladder(th):
+        for bf in ((False, True) if (th or n > 33 or n in SIZE_ABOVE) else (bool(k % 2),)):
+            k += 1
+            g = gammas[k % len(gammas)]
+            N = rng.choice([1, 2, 3])
+            exact = g in ([1, 1], [-1, 1]) or (g == [1, 2] and n <= 33)
+            c = dict(kind="return", r=size_tensor(rng, [N, n] if bf else [n, N], 1 if bf else 0, amp=3), scale=1, gamma=g, bf=bf,
+                     exact=exact, via=vias[k % len(vias)])
+            # vm_compute: O(T^3 N^2) list steps on rationals whose size grows with T (0.2 s at T = 33, 1.5 - 2.5 s at 65, 24 s at
+            # 129; minutes for gamma = 0.9 = a 53-bit fraction): above 33 one case per run by the model, gamma dyadic
+            if n == by_model and g in (0.9, [3, 4]):
+                c["gamma"] = g = [1, 2]
+            if n > 65 or (n > 17 and g == 0.9) or (n > 33 and not th and n != by_model):
+                c["python_only"] = True
+            if n == by_model:
+                by_model = 0
+            cases.append(_tag(c, "return.horizon", n))
+    for n in size_ladder(th):
+        k += 1
+        bf = bool(k % 2)
+        T = rng.choice([3, 4, 5, 6])
+        g = gammas[k % len(gammas)]
+        cases.append(_tag(dict(kind="return", r=size_tensor(rng, [n, T] if bf else [T, n], 0 if bf else 1, amp=3), scale=1, gamma=g,
+                               bf=bf, exact=g != 0.9, via=vias[k % len(vias)]), "return.batch", n))
+    return cases
+
+
+def gen_size_cmd(rng, th):
+    """the command: number of files (with and without groups), number of groups (every file its own; listed ids without a
+    file leave groups empty), frames of one file"""
+    cases = []
+    k = rng.randrange(6)
+
+    def files(n, X, dim):
+        out = []
+        for i in rng.sample(range(0, 2 * n + 8), n):
+            sh = [rng.choice([1, 2]), X] if dim == -1 else [X, rng.choice([1, 2])]
+            out.append({"id": i, "x": size_tensor(rng, sh, 1 if dim == -1 else 0)})
+        return out
+
+    def case(fs, id2gid, dim, extent, n):
+        return _tag(dict(kind="cmd", files=fs, id2gid=id2gid, dim=dim, bessel=rng.random() < 0.5, scale=rng.choice([1, 4]),
+                         dtype=rng.choice(["f32", "f64"]), junk=["README.txt"] if rng.random() < 0.3 else [],
+                         num_workers=0, blank_lines=rng.random() < 0.3), extent, n)
+
+    for n in size_ladder(th, top=257 if th else 129):
+        for rep in range(2 if n in SIZE_ABOVE else 1):     # just above a power of two: with AND without the id map
+            k += 1
+            dim, X = rng.choice([-1, 0]), rng.choice([1, 2, 3])
+            fs = files(n, X, dim)
+            id2gid = None
+            if k % 2:
+                id2gid = [[f["id"], rng.randrange(3)] for f in fs]
+                rng.shuffle(id2gid)
+            cases.append(case(fs, id2gid, dim, "cmd.files", n))
+    for n in size_ladder(th, top=129 if th else 65):
+        k += 1
+        dim, X = rng.choice([-1, 0]), rng.choice([1, 2])
+        fs = files(n, X, dim)
+        for f in fs:                                   # every group must hold two frames
+            sh = [2, X] if dim == -1 else [X, 2]
+            f["x"] = size_tensor(rng, sh, 1 if dim == -1 else 0)
+        id2gid = [[f["id"], g] for g, f in enumerate(fs)]
+        if k % 2:                                      # listed ids without a file: their groups stay empty and are not saved
+            id2gid += [[2 * n + 10 + j, n + j] for j in range(3)]
+        rng.shuffle(id2gid)
+        cases.append(case(fs, id2gid, dim, "cmd.groups", n))
+    for n in size_ladder(th, top=129):
+        k += 1
+        if not th and n not in (17, 33, 65, 129):
+            continue
+        dim, X = rng.choice([-1, 0]), 2
+        sh = [n, X] if dim == -1 else [X, n]
+        fs = [{"id": 1, "x": size_tensor(rng, sh, 0 if dim == -1 else 1)}, {"id": 2, "x": size_tensor(rng, [1, X] if dim == -1 else [X, 1], 0)}]
+        cases.append(case(fs, None if k % 2 else [[1, 0], [2, 0]], dim, "cmd.frames", n))
+    return cases
+
+
+def gen_size(chk, rng):
+    th = chk.tier == "thorough"
+    cases = []
+    for _ in range(3 if th else 1):     # thorough: all 13 sizes of every ladder, three draws of payloads / options / layouts
+        cases += (gen_size_ops(rng, th) + gen_size_norm(rng, th) + gen_size_deltas(rng, th) + gen_size_return(rng, th) +
+                  gen_size_cmd(rng, th))
+    return cases
+
+
+def _weight(case):
+    """rough cost of a case's model term (the size cases are dealt evenly over the shards of the Coq evaluation)"""
+    s = case.get("size")
+    if not s:
+        return 0
+    return s["n"] ** (3 if s["extent"] == "return.horizon" and not case.get("python_only") else 1)
+
+
+def spread_order(cases, shard):
+    """evaluation order of the terms: the shards are cut from it consecutively, so the heavy terms (size cases) are dealt
+    over the shards heaviest first instead of filling the last two shards"""
+    n = len(cases)
+    heavy = sorted([i for i in range(n) if _weight(cases[i])], key=lambda i: -_weight(cases[i]))
+    light = [i for i in range(n) if not _weight(cases[i])]
+    S = max(1, -(-n // shard))
+    buckets = [[] for _ in range(S)]
+    for j, i in enumerate(heavy):
+        r = j % (2 * S)
+        buckets[r if r < S else 2 * S - 1 - r].append(i)
+    it = iter(light)
+    for b in buckets:
+        while len(b) < shard:
+            i = next(it, None)
+            if i is None:
+                break
+            b.append(i)
+    rest = list(it)
+    order = [i for b in buckets for i in b] + rest
+    assert sorted(order) == list(range(n))
+    return order
+
+
 def gen_cases(chk):
     th = chk.tier == "thorough"
     rng = chk.rng
@@ -1911,6 +2193,8 @@ def gen_cases(chk):
     cases += gen_return_f32(rng, th)
     # robustness audit (drawn last)
     cases += gen_audit(chk, rng)
+    # size thresholds / algorithm regimes (drawn after everything else)
+    cases += gen_size(chk, rng)
     return cases
 
 
@@ -1956,13 +2240,14 @@ def _cands(case):
         key = "r" if k == "return" else "x"
         t = case[key]
         for d, s in enumerate(t["shape"]):
-            if s > 1:
-                c = dict(case)
-                c[key] = _slice_tensor(t, d, s - 1)
-                if k == "norm":
-                    if (case["mean"] is not None and len(case["mean"]) == s) or (case["std"] is not None and len(case["std"]) == s):
-                        continue
-                yield c
+            for keep in ([s // 2] if s > 8 else []) + [s - 1]:       # halve a long axis first (size cases)
+                if s > 1:
+                    c = dict(case)
+                    c[key] = _slice_tensor(t, d, keep)
+                    if k == "norm":
+                        if (case["mean"] is not None and len(case["mean"]) == s) or (case["std"] is not None and len(case["std"]) == s):
+                            continue
+                    yield c
         for key in ("twice", "layout", "warm", "slayout", "alias", "gamma_int"):
             if case.get(key):
                 yield dict(case, **{key: None})
@@ -2058,6 +2343,16 @@ def run(chk, cases=None):
         "0, 1, 2 with T != N in both layouts; delta layouts with pairwise distinct axis sizes and the time axis >= 3 axes from the "
         "end; (e) the command with non-default --file-prefix / --file-suffix, ids that are prefixes of each other or contain the "
         "prefix / suffix, group ids 'None' / '1' / 'g1' / 'g10', decoy files that match only one of prefix and suffix",
+        "size thresholds (stream 'size'): every tensor / list extent of every entry point - frames of one accumulated tensor, "
+        "coefficients, number of accumulate calls; frames and coefficients of mean_var_norm; time, lines (batch of the convolution), "
+        "number of orders, width (kernel taps) of feat_deltas; horizon and batch of time_distributed_return in both layouts; files, "
+        "groups and frames per file of the command - at 17, 31..33, 63..65, 128, 129, 257 (thorough: + 127, 255, 256, three draws), "
+        "one extent at a time, the others 1..3; payload: no zero entry, slices along the extent pairwise different, so a dropped / "
+        "duplicated / swapped cell or a lost last position changes the result; sizes one above a power of two are crossed with the "
+        "options that select a code path (4 pad modes, 2 layouts, with / without id map).  Judged by the same Coq check terms (exact "
+        "count / sum / sumsq buffers); horizons above 65 (above 33 but for one per run) by the exact rational recursion in Python "
+        "because the model's matrix product is cubic in T; deltas of the size stream use the magnitude-aware tolerance 1e-5 + "
+        "2 (order + 2) u32 max|x| of the offset stream (orders up to 64, |x| up to 130)",
     ]
     replaying = cases is not None
     cases = cases if cases is not None else gen_cases(chk)
@@ -2097,7 +2392,11 @@ def run(chk, cases=None):
             mm = {"what": "a relation stated by the property could not be evaluated on the implementation: " + repr(e)}
         if mm:
             recs.append((idx, mm))
-    res = coq_eval_bools(chk.workdir, IMPORTS, terms, shard=60)
+    order = spread_order(cases, 60)
+    res_o = coq_eval_bools(chk.workdir, IMPORTS, [terms[i] for i in order], shard=60)
+    res = [True] * len(terms)
+    for i, ok in zip(order, res_o):
+        res[i] = ok
     bad = [i for i, ok in enumerate(res) if not ok]
     chk.extra["model_disagreements"] = len(bad)
     chk.extra["relation_failures"] = len(recs)
@@ -2159,6 +2458,8 @@ def _src_tie_eligible(case, out):
     sh = case["r"]["shape"]
     if len(sh) == 2:
         T, N = (sh[1], sh[0]) if case["bf"] else (sh[0], sh[1])
+        if case.get("size") and T > 33:     # the size ladder's 63..65 horizon costs 2 s here as well: the model judges it
+            return False
         return T <= SRC_TIE_MAX_T and N <= SRC_TIE_MAX_N
     return numel(sh) <= 64
 
@@ -2212,6 +2513,8 @@ def _nf_signature(case, out):
 
 def _histogram(chk, c, out):
     k = c["kind"]
+    if c.get("size"):
+        chk.count("size.%s=%d" % (c["size"]["extent"], c["size"]["n"]))
     if "layout" in c:
         chk.count("audit.%s.layout=%s" % (k, c.get("layout")))
         if k == "ops":
